@@ -58,7 +58,7 @@ public:
   static double NaN() { return NAN; }
   /** @} */
 
-  static double PI() { return 3.141593; }
+  static double PI() { return 3.14159265358979323846; }
 };
 } // end of namespace bpp.
 #endif // BPP_NUMERIC_NUMCONSTANTS_H
